@@ -104,15 +104,22 @@ ObsDsn(o, S, suppress) ==
 \* status code the scripted failures carry (harness/scripted/errs.go); an unclassified error has
 \* no code of its own and is stored as the generic temporary one
 StatusOf(res) == CASE res = "temp" -> "4.3.0" [] res = "perm" -> "5.1.1" [] OTHER -> "4.0.0"
+\* class digit of the status a failure of that kind must be reported with
+ClassOf(res) == IF res = "perm" THEN "5" ELSE "4"
+\* enh = the scripted failures carry an enhanced status code.  One that carries only a basic reply
+\* code (a next hop without ENHANCEDSTATUSCODES, a module that fills only Code/Message) has no
+\* enhanced code of its own: the design stores the generic X.0.0 of its class; the property only
+\* asks for the class then ("with their last status codes" - there is no more specific one)
+StatusOfE(res, enh) == IF enh THEN StatusOf(res) ELSE IF res = "perm" THEN "5.0.0" ELSE "4.0.0"
 
 \* a report as the bounce pipeline saw it (parsed with an independent MIME parser)
 GoodReport(x) ==
   [ mimeOK |-> TRUE, reportType |-> "delivery-status", parts |-> 3, dsnAscii |-> TRUE,
     returnPath |-> "", toSender |-> TRUE, hasOrigHdr |-> TRUE, origSubjOK |-> TRUE,
-    listed |-> x.listed, rewritten |-> {}, status |-> x.status ]
+    listed |-> x.listed, rewritten |-> {}, status |-> x.status, cls |-> x.cls ]
 
 \* C18 predicates over one report (o.last holds each recipient's final outcome of the attempt)
-ObsReport(o, rep, utf8) ==
+ObsReport(o, rep, utf8, enh) ==
   LET o1 == V(o, rep.mimeOK /\ rep.reportType = "delivery-status" /\ rep.parts >= 2
                  /\ (utf8 \/ rep.dsnAscii), "ReportNotWellFormed")
       o2 == V(o1, rep.returnPath = "", "ReportReturnPathNotNull")
@@ -120,7 +127,10 @@ ObsReport(o, rep, utf8) ==
       o4 == V(o3, rep.hasOrigHdr /\ rep.origSubjOK, "ReportLacksOriginalHeader")
       o5 == V(o4, rep.rewritten = {}, "ReportUsesRewrittenAddress")
       o6 == V(o5, \A r \in DOMAIN rep.status :
-                     r \in DOMAIN o.last => rep.status[r] = StatusOf(o.last[r]), "ReportStatusMismatch")
+                     r \in DOMAIN o.last =>
+                        /\ r \in DOMAIN rep.cls /\ rep.cls[r] = ClassOf(o.last[r])
+                        \* (an unclassified failure carries no status of its own: only the class is fixed)
+                        /\ (enh /\ o.last[r] # "unspec") => rep.status[r] = StatusOf(o.last[r]), "ReportStatusMismatch")
       o7 == V(o6, o.owed = {}, "ReportOmitsFailedRcpt")
       o8 == V(o7, \A i, j \in 1..Len(rep.listed) : i # j => rep.listed[i] # rep.listed[j],
               "ReportListsRcptTwice")
@@ -134,5 +144,9 @@ ObsQuiesced(o, suppress, spoolEmpty) ==
                 ELSE o.committed[r] + o.bounced[r] = 1
       o1 == V(o, \A r \in o.rcpts : one(r), "NotExactlyOneOutcome")
       o2 == V(o1, o.pending = {}, "PendingRcptAbandoned")
-  IN V(o2, ~o.inAtt, "AttemptLeftOpen")
+      o3 == V(o2, ~o.inAtt, "AttemptLeftOpen")
+      \* the report view of the same obligation (C18): the reports handed over for the attempts of this
+      \* message listed every recipient that failed terminally - an attempt whose report was never
+      \* generated (e.g. because the generator refused a stored status) lists none of them
+  IN V(o3, suppress \/ o.owed = {}, "FailedRcptNotReported")
 =============================================================================
